@@ -56,6 +56,10 @@ fn auto_delta_encoding_order<T: NumberLike>(
   } else {
     &nums[0..AUTO_DELTA_LIMIT]
   };
+  if head_nums.is_empty() {
+    // there is nothing to try compressing (and empty chunks are rejected)
+    return 0;
+  }
   let mut best_order = usize::MAX;
   let mut best_size = usize::MAX;
   for delta_encoding_order in 0..8 {
